@@ -50,6 +50,6 @@ pub fn reset_spawned() {
 #[macro_export]
 macro_rules! verif_capacity {
     ($what:literal) => {
-        panic!(concat!("VERIF-CAPACITY: ", $what))
+        panic!($what)
     };
 }
